@@ -530,7 +530,7 @@ def sec_funcs(env, r, i):
         with U.time_limit(env.cap):
             res = f(*args, **kw2)
     except U.CaseTimeout:
-        env.rec.event('calls cut by the wall-clock cap')
+        env.rec.event('calls cut by the CPU cap')
         env.slow.add(name)
         res = None
     finally:
@@ -747,10 +747,14 @@ def sec_pickle(env, r, i):
     case = {'section': 'pickle', 'x': _raw_desc(raw), 'im': _raw_desc(im), 'proto': proto}
     env.mon.begin(case)
     out = [pickle.loads(pickle.dumps(x, proto)), pickle.loads(pickle.dumps(z, proto)), copy.copy(x), copy.deepcopy(z)]
-    # (mp.matrix itself is not picklable in this tree: its entries travel as a list)
     M = mp.matrix([[x, z], [1, x]])
-    L2 = pickle.loads(pickle.dumps([M[0, 0], M[0, 1], (M[1, 0], {'k': M[1, 1]})], proto))
-    M2 = mp.matrix([[L2[0], L2[1]], [L2[2][0], L2[2][1]['k']]]).copy()
+    try:
+        M2 = pickle.loads(pickle.dumps(M, proto))
+        env.rec.event('matrices unpickled')
+    except Exception:
+        # older trees cannot pickle mp.matrix: its entries travel as a list
+        L2 = pickle.loads(pickle.dumps([M[0, 0], M[0, 1], (M[1, 0], {'k': M[1, 1]})], proto))
+        M2 = mp.matrix([[L2[0], L2[1]], [L2[2][0], L2[2][1]['k']]]).copy()
     out += [M2[0, 0], M2[0, 1], M2[1, 0], M2[1, 1]]
     c = r.choice(K.names('constant'))
     out.append(mp.mpf(pickle.loads(pickle.dumps(mp.mpf(getattr(mp, c)), proto))))
@@ -1049,7 +1053,7 @@ def run_cases(env, r, n, shard_index, only=None):
         for c in env.ctxs:
             c.prec = 53
         env.iv.prec = 53
-        case = {'section': sec, 'index': i}
+        case = {'section': sec, 'index': i, 'shard': shard_index}
         env.mon.begin(case)
         out, cls = [], sec + '/raised'
         if time.process_time() - env.t0 > env.budget:
@@ -1062,7 +1066,7 @@ def run_cases(env, r, n, shard_index, only=None):
                 continue
             case, cls, out = got
         except U.CaseTimeout:
-            rec.event('calls cut by the wall-clock cap')
+            rec.event('calls cut by the CPU cap')
             case = env.mon.case
             cls = sec + '/cut'
         except Exception as e:
@@ -1073,8 +1077,10 @@ def run_cases(env, r, n, shard_index, only=None):
             cls = sec + '/raised'
         case = dict(case)
         case['index'] = i
+        case['shard'] = shard_index
         env.mon.case = case
-        rec.case((sec, repr(sorted((k, repr(v)) for k, v in case.items() if k != 'index'))), env.mon.nonspecial > 0, cls=cls)
+        rec.case((sec, repr(sorted((k, repr(v)) for k, v in case.items() if k not in ('index', 'shard')))),
+                 env.mon.nonspecial > 0, cls=cls)
         if i % 997 == 0:
             rec.sample(case)
         if sec != 'twin':
@@ -1168,7 +1174,7 @@ def replay(case, rec):
     if isinstance(c, dict) and 'case' in c and isinstance(c['case'], dict):
         c = c['case']
     idx = c.get('index')
-    shard_index = case.get('shard_index')
+    shard_index = c.get('shard')
     tier, seed = case.get('tier', 'quick'), case.get('seed', 0)
     if idx is None:
         rec.undecided('replay file has no case index')
